@@ -1,7 +1,8 @@
 // C05 / C07 generators: pairs of types for assignability, and semantic operators (Exclude, keyof, indexed access).
 //   (sub <id> (<decl>*) <A> <B> "<ts source>")       source: `A extends B ? "yes" : "no"` exported as R
 import { A, Atom, show, head, isAtom } from "./sx.mjs";
-import { tsOf, tsOfDecl } from "./mode_prog.mjs";
+import { tsOf, tsOfDecl, member } from "./mode_prog.mjs";
+import { encVal } from "./values.mjs";
 
 const lit = (k, v) => [A("lit"), [A(k), v]];
 const LITS = [lit("b", A("true")), lit("b", A("false")), lit("n", "1"), lit("n", "2"), lit("s", "a"), lit("s", "b")];
@@ -82,8 +83,58 @@ function mutateTy(rng, t, sc) {
   }
   return genLeaf(rng);
 }
+// ---------- C07: Exclude / keyof / indexed access ----------
+const SEM_STRS = ["a", "b", "c", "v", "next", "zz", ""];
+function semValues(rng, p, types, n) {
+  const vals = [];
+  for (let i = 0; i < n; i++) {
+    const r = rng.below(10);
+    if (r < 6) vals.push(member(rng, p, rng.pick(types), 2));
+    else if (r < 8) vals.push(rng.pick(SEM_STRS));
+    else vals.push(rng.pick([0, 1, 2, 7, true, false, null, undefined, [], {}, { a: 1 }, [1], ["a"]]));
+  }
+  return vals;
+}
+function genSem(rng, params) {
+  const { decls, names } = genDecls(rng);
+  const sc = { names };
+  const p = [A("prog"), decls, []];
+  const kind = rng.below(3);
+  let expr, text, types;
+  if (kind === 0) { // Exclude<A, B>: A a union, B one of its members / a widening / a literal subset / unrelated
+    const ms = Array.from({ length: 2 + rng.below(3) }, () => (rng.chance(1, 2) ? genLeaf(rng) : genSubTy(rng, 1 + rng.below(2), sc)));
+    const a = [A("union"), ...ms];
+    const r = rng.below(5);
+    const b = r === 0 ? rng.pick(ms) : r === 1 ? mutateTy(rng, rng.pick(ms), sc) : r === 2 ? [A("union"), rng.pick(ms), rng.pick(ms)] : r === 3 ? genLeaf(rng) : genSubTy(rng, 1, sc);
+    expr = [A("exclude"), a, b]; text = `Exclude<${tsOf(a)}, ${tsOf(b)}>`; types = [a, b];
+  } else if (kind === 1) { // keyof
+    const objNames = decls.filter((d) => head(d[3]) === "obj").map((d) => d[1]);
+    const objs = Array.from({ length: 1 + rng.below(3) }, () => (objNames.length && rng.chance(1, 4) ? [A("ref"), rng.pick(objNames)] : genObj(rng, 1, sc)));
+    const a = objs.length === 1 ? objs[0] : [A(rng.chance(1, 2) ? "union" : "inter"), ...objs];
+    expr = [A("keyof"), a]; text = `keyof ${tsOf(a)}`; types = [A("string"), a];
+  } else { // indexed access
+    if (rng.chance(2, 3)) {
+      const o = genObj(rng, 2, sc);
+      const ks = o[1].map((m) => m[0]);
+      if (!ks.length) { o[1].push(["a", A("false"), genLeaf(rng)]); ks.push("a"); }
+      const a = rng.chance(1, 4) ? [A("union"), o, genObj(rng, 1, sc)] : o;
+      const pick = ks.filter(() => rng.chance(1, 2));
+      const keys = (pick.length ? pick : [ks[0]]).map((k) => lit("s", k));
+      const k = keys.length === 1 ? keys[0] : [A("union"), ...keys];
+      expr = [A("idx"), a, k]; text = `(${tsOf(a)})[${tsOf(k)}]`; types = [a, ...o[1].map((m) => m[2])];
+    } else {
+      const a = rng.chance(1, 2) ? [A("array"), genSubTy(rng, 1, sc)] : [A("tuple"), Array.from({ length: 1 + rng.below(3) }, () => genSubTy(rng, 1, sc)), rng.chance(1, 3) ? genLeaf(rng) : A("none")];
+      const k = rng.chance(1, 2) ? A("number") : lit("n", String(rng.below(3)));
+      expr = [A("idx"), a, k]; text = `(${tsOf(a)})[${tsOf(k)}]`; types = head(a) === "array" ? [a[1], a] : [...a[1], a];
+    }
+  }
+  const vals = semValues(rng, p, types, Number(params[0] || 10));
+  const src = decls.map(tsOfDecl).join("\n") + `\nparse.buildParsers<{ R: ${text} }>();\n`;
+  return [A("sem"), A(String(counter++)), [A("prog"), decls, [["R", expr]]], [["entry.ts", src]], vals.map(encVal)];
+}
 let counter = 0;
 export function gen(rng, params, mode) {
+  if (mode === "sub-sem") return genSem(rng, params);
   const { decls, names } = genDecls(rng);
   const sc = { names };
   const a = genSubTy(rng, 1 + rng.below(3), sc);
